@@ -52,6 +52,26 @@ def run_case(ctx, gd, q, via="outcomes"):
     return res
 
 
+def _edit_histories(ctx, rng):
+    from y0.algorithm.identify import identify_outcomes
+    from y0.dsl import Variable
+
+    for _ in range(ctx.share({"quick": 60, "thorough": 1500}[ctx.tier])):
+        gd = gg.random_admg(rng, rng.randint(3, 5))
+        g = gg.to_nx(gd)
+        for _s in range(8):
+            q = gq.random_query(rng, gd)
+            if q:
+                kernel.LOG.reset_case({"graph": gd, "X": q["X"], "Y": q["Y"], "via": "edit-history"})
+                try:
+                    res = identify_outcomes(g, {Variable(x) for x in q["X"]}, {Variable(y) for y in q["Y"]})
+                except Exception:  # noqa: BLE001
+                    res = None
+                ctx.case(f"{gg.key(gd)}|{q['X']}|{q['Y']}|hist", res is not None and bool(set(kernel.tags()) & {"id.line4", "id.line6", "id.line7"}))
+            if rng.random() < 0.6:
+                gd = gg.edit_inplace(g, gd, rng)
+
+
 def example_graphs():
     import y0.examples as ex
 
@@ -119,6 +139,8 @@ def run_shard(ctx, K=None):
             else:
                 pool[rng.randrange(len(pool))] = (gd, q)
     ctx.extras["feedback"] = fb
+    # edit histories: the same graph object is queried, edited in place and queried again
+    _edit_histories(ctx, rng)
     exs = example_graphs()
     for j, gd in enumerate(exs):
         if not ctx.mine(j):
